@@ -107,7 +107,13 @@ class Describer:
                 return compose(base, lo, hi)
             if kind == "from":
                 lo = ex(a)
-                return compose(base, lo, None) if lo is not None else ("sub", base, None, None)
+                if lo is None:
+                    return ("sub", base, None, None)
+                # close the range when the length of the base is known exactly at this point
+                L = self.ev.at_block(d[0]).slice_len(args[0], d[0])
+                if L is not None and L[0] == L[1] and L[0] != INF and base[0] == "p" and base[2] == 0 and base[3] is None:
+                    return compose(base, lo, int(L[0]))
+                return compose(base, lo, None)
             if kind in ("to", "toinc"):
                 hi = ex(c)
                 if hi is None:
@@ -123,6 +129,10 @@ class Describer:
 
     def tuple_field_slice(self, l, fld, depth):
         d = self.b.single_def(l)
+        if d and d[2] == "A" and d[3][2][0] == "agg" and fld < len(d[3][2][2]):
+            return self.slice_of(d[3][2][2][fld], depth + 1)
+        if d and d[2] == "A" and d[3][2][0] == "use" and d[3][2][1][0] in ("cp", "mv") and len(d[3][2][1][1]) == 1:
+            return self.tuple_field_slice(d[3][2][1][1][0], fld, depth + 1)
         if d and d[2] == "call" and (d[3][1]["f"].endswith("::split_at") or d[3][1]["f"].endswith("::split_at_mut")):
             base = self.slice_of(d[3][2][0], depth + 1)
             mid = self.ev.op_ival(d[3][2][1])
